@@ -199,7 +199,11 @@ var encKeys = []string{"k", "key2", "", "a\"b", "x=y", "p|q", "nl\nkey", "bad\xf
 var encInts = []int64{math.MinInt64, -1, 0, 1, math.MaxInt64, 1234567890123, -42}
 var encUints = []uint64{0, 1, math.MaxUint64, math.MaxInt64 + 1, 4294967296}
 var encFloats = []float64{0, math.Copysign(0, -1), 1.5, -2.25, 5e-324, math.MaxFloat64, -math.MaxFloat64, 1e21, 1e-7,
-	float64(float32(0.1)), math.SmallestNonzeroFloat32, 123456789.123456789, 1e100}
+	float64(float32(0.1)), math.SmallestNonzeroFloat32, 123456789.123456789, 1e100,
+	// whole numbers at and next to the integer types' bounds (2^63, 2^64, 2^53, 2^31, 2^32) and their neighbours
+	9223372036854775808, -9223372036854775808, 9223372036854774784, 9223372036854777856, -9223372036854777856,
+	18446744073709551616, 18446744073709549568, 9007199254740992, 9007199254740993, -9007199254740992, 2147483648, -2147483649,
+	4294967296, 1e15, 1e16, 123456789012345678, 100, -7}
 var encNonFin = []float64{math.NaN(), math.Inf(1), math.Inf(-1)}
 
 type tstruct struct {
